@@ -43,7 +43,7 @@ def camel(s):
 
 
 class TmplGen:
-    def __init__(self, rng, data_names=None, max_depth=3, exprs="safe"):
+    def __init__(self, rng, data_names=None, max_depth=3, exprs="safe", src_modules=False):
         self.rng = rng
         self.data_names = data_names or ["a", "b", "c", "d", "l", "o", "f", "n", "item", "index", "x", "k"]
         self.max_depth = max_depth
@@ -56,6 +56,8 @@ class TmplGen:
             start = rng.below(len(MODULE_POOL))
             self.modules = [MODULE_POOL[(start + i) % len(MODULE_POOL)] for i in range(k)]
         self.slot_values = rng.chance(1, 4)    # elements may carry `slot:` value references
+        # some modules live in script files (<wxs module="m" src="./m_mod"/>); callers that ask for them register the scripts (group_request)
+        self.src_modules = [n for (n, _) in self.modules if rng.chance(1, 2)] if src_modules else []
 
     def module_expr(self, k):
         r = self.rng
@@ -120,7 +122,7 @@ class TmplGen:
         r = self.rng
         kind = r.choice(list(kinds))
         if kind == "static":
-            return ("static", r.choice(["", "v", "a b", "x-1", "é中", "1 < 2 & 3", "say \"hi\"", "it's", "  pad  ", "\U0001F600"]))
+            return ("static", r.choice(["", "v", "a b", "x-1", "é中", "1 < 2 & 3", "say \"hi\"", "it's", "  pad  ", "\U0001F600", "½ cup", "5m² ∴ ¾"]))
         if kind == "expr":
             return ("expr", self.expr(scope_names))
         parts = []
@@ -289,7 +291,9 @@ class TmplGen:
                 self.subs["t0"] = [("text", ("static", "T0"))]
             return ("tref", isv, data)
         if c == 12:
-            return ("slot", r.choice([None, ("static", "s1"), ("expr", ("data", "n"))]), [])
+            # a `<slot>` may carry `slot:` value references of its own: they scope over the slot element only (it has no children)
+            own = [("slot:" + nm_, al) for (_, nm_, al) in self.slot_refs()]
+            return ("slot", r.choice([None, ("static", "s1"), ("expr", ("data", "n"))]), own)
         if c == 13:
             return ("comment", r.choice([" c ", "x--y", "<view>", ""]))
         refs = self.slot_refs()
@@ -301,15 +305,27 @@ class TmplGen:
         if not nodes:
             nodes = [("text", ("static", "empty"))]
         subs = {k: v for k, v in self.subs.items() if v is not None}
-        return {"path": path, "nodes": nodes, "subs": subs, "modules": list(self.modules), "slot_values": self.slot_values}
+        return {"path": path, "nodes": nodes, "subs": subs, "modules": list(self.modules), "slot_values": self.slot_values,
+                "src_modules": list(self.src_modules)}
+
+
+def group_request(t, src):
+    """the `group` request of a printed template: its file and the script files of its `src` modules"""
+    srcm = t.get("src_modules", [])
+    return {"files": [[t["path"], src]], "scripts": [[n + "_mod", c] for (n, c) in t.get("modules", []) if n in srcm]}
 
 
 # ---------------------------------------------------------------------------------------------
 # printing to WXML
+NAMED_REFS = {"½": "frac12", "²": "sup2", "¾": "frac34", "∴": "there4", "é": "eacute", "©": "copy", "¹": "sup1", "³": "sup3", "¼": "frac14", "⅓": "frac13"}
+
+
 def esc_text(s, quote=None, rng=None):
     o = []
     for c in s:
-        if c == "<":
+        if c in NAMED_REFS and (rng is None or rng.chance(3, 4)):
+            o.append("&" + NAMED_REFS[c] + ";")     # named references, several with digits in the name
+        elif c == "<":
             o.append("&lt;")
         elif c == "&":
             o.append("&amp;")
@@ -450,7 +466,7 @@ class Printer:
             if n[1] is not None:
                 at.append('name="' + self.value_text(n[1], '"') + '"')
             for (nm, v) in n[2]:
-                at.append(self.attr("plain", nm, v))
+                at.append(self.attr("slot:", nm[5:], v) if nm.startswith("slot:") else self.attr("plain", nm, v))
             return self.open_close("slot", at, "")
         if k == "comment":
             return "<!--" + n[1] + "-->"
@@ -464,7 +480,8 @@ class Printer:
         for name, body in subs:
             out.append('<template name="%s">%s</template>' % (name, self.nodes(body)))
         body = self.nodes(t["nodes"])
-        mods = "".join('<wxs module="%s">%s</wxs>' % (n, c) for n, c in t.get("modules", []))
+        srcm = t.get("src_modules", [])
+        mods = "".join(('<wxs module="%s" src="./%s_mod"/>' % (n, n)) if n in srcm else ('<wxs module="%s">%s</wxs>' % (n, c)) for n, c in t.get("modules", []))
         if self.vary and self.rng.chance(1, 2):
             return body + "".join(out) + mods
         if self.vary and self.rng.chance(1, 2):
@@ -555,7 +572,8 @@ class RefJs:
             elif fam == "id":
                 self.emit(f"{e}.calls.push(['i',{val}]);")
             elif fam == "slot":
-                self.emit(f"if(({val})!==undefined){e}.calls.push(['=slot',STR({val})]);")
+                # (the slot of an element is `Y(value)`: null and undefined select the default slot, as for virtual nodes)
+                self.emit(f"{e}.calls.push(['=slot',TOSTR({val})]);")
             elif fam == "data-":
                 self.emit(f"{e}.calls.push(['d',{js(camel(name.lower()))},{val}]);")
             elif fam == "data:":
@@ -636,7 +654,7 @@ class RefJs:
             nmv = "''" if n[1] is None else f"TOSTR({self.val(n[1], scopes, D)})"
             e = self.fresh("e")
             self.emit(f"var {e}={{slot:{nmv},calls:[]}};")
-            self.attr_calls(e, [("plain", nm, v) for (nm, v) in n[2]], scopes, D, on_slot=True)
+            self.attr_calls(e, [("plain", nm, v) for (nm, v) in n[2] if not nm.startswith("slot:")], scopes, D, on_slot=True)
             self.emit(f"{out}.push({e});")
         elif k in ("comment", "wxs", "import"):
             pass
@@ -852,7 +870,8 @@ def field_uses(t):
         elif k == "slot":
             unreach.update(value_fields(n[1], bound))
             for nm, v in n[2]:
-                unreach.update(value_fields(v, bound))
+                if not nm.startswith("slot:"):
+                    unreach.update(value_fields(v, bound))
         elif k == "include":
             has_include[0] = True
 
